@@ -367,10 +367,10 @@ def gen(rng, tier):
     for kind, limit in kinds:
         for n in range(1, depth + 1):
             for word in itertools.product(range(len(ALPHA)), repeat=n):
-                if n == depth and rng.random() > (0.05 if tier == "quick" else 0.25):
+                if n == depth and rng.random() > (0.04 if tier == "quick" else 0.25):
                     continue
                 cases.append({"kind": kind, "limit": limit, "ops": [ALPHA[a] for a in word]})
-    for _ in range(300 if tier == "quick" else 6000):
+    for _ in range(200 if tier == "quick" else 6000):
         kind, limit = rng.choice(kinds + [("sem", 5)])
         cases.append({"kind": kind, "limit": limit, "ops": _random_history(rng, rng.randrange(6, 50))})
     # bursts: a holder, then many run() calls queue up behind it, then the holder releases (the whole queue is
@@ -476,7 +476,7 @@ SPEC = Spec(
     model_equal=model_equal,
     nontrivial=lambda c, o: sum(1 for t in ("W", "C", "R", "L") if t in o) >= 2,
     histogram=histogram,
-    rule="every history of length <= 3 (quick; length 3 sampled 5%) / <= 4 (thorough; length 4 sampled 25%) over a "
+    rule="every history of length <= 3 (quick; length 3 sampled 4%) / <= 4 (thorough; length 4 sampled 25%) over a "
          "15-letter alphabet (acquire, run with returning/raising/Deferred-returning function, release by holder "
          "0-2, cancel 0-2, fire 0-2, acquire-then-release-in-callback, run whose function re-enters the primitive) "
          "for DeferredLock and DeferredSemaphore(1..3); random histories of 6-50 ops (limits up to 5) in which 30% "
